@@ -161,6 +161,139 @@ def _can(s, encoding):
         return False
 
 
+def _creator(case):
+    from uberjob import stores
+
+    kind, enc = case["kind"], case["encoding"]
+
+    def create(path):
+        if case["pathlib"]:
+            path = pathlib.Path(path)
+        if kind == "json":
+            return stores.JsonFileStore(path, encoding=enc)
+        if kind == "text":
+            return stores.TextFileStore(path, encoding=enc)
+        if kind == "pickle":
+            return stores.PickleFileStore(path)
+        if kind == "binary":
+            return stores.BinaryFileStore(path)
+        return stores.TouchFileStore(path)
+
+    return create
+
+
+@st.composite
+def overlap_cases(draw):
+    subs = []
+    for _ in range(draw(st.sampled_from([2, 2, 3]))):
+        c = draw(cases())
+        c.update(mounted=True, foreign=None, pathstyle="abs")
+        c["values"] = c["values"][:3]
+        subs.append(c)
+    return {"fam": "overlap", "subs": subs}
+
+
+def check_overlap_case(ctx, case, record=True):
+    """Several MountedStores (each a subclass of the public MountedStore ABC copying to its own 'remote' file) are written
+    and read at the same time from different threads, as a run's workers do; the copy hooks rendezvous so that the
+    operations really overlap.  Each store must still return exactly what was written to it."""
+    import threading
+
+    from uberjob.stores import MountedStore
+    from uberjob.stores._file_store import get_modified_time
+
+    subs = case["subs"]
+    n = len(subs)
+    if record:
+        ctx.case(case, True, ["fam:overlap", f"stores:{n}"] + sorted({f"kind:{c['kind']}" for c in subs}))
+    directory = tempfile.mkdtemp(prefix="c12-")
+    gate = {"barrier": None}
+
+    def rendezvous():
+        b = gate["barrier"]
+        if b is not None:
+            try:
+                b.wait(0.3)
+            except threading.BrokenBarrierError:
+                pass  # the others are not (or no longer) inside an operation: no overlap forced, nothing asserted
+
+    class RemoteMounted(MountedStore):
+        def __init__(self, create, remote):
+            super().__init__(create)
+            self.remote = remote
+
+        def copy_from_local(self, local_path):
+            rendezvous()
+            shutil.copyfile(local_path, self.remote)
+
+        def copy_to_local(self, local_path):
+            shutil.copyfile(self.remote, local_path)
+            rendezvous()
+
+        def get_modified_time(self):
+            return get_modified_time(self.remote)
+
+    try:
+        stores_ = [RemoteMounted(_creator(c), os.path.join(directory, f"remote{i}.dat")) for i, c in enumerate(subs)]
+        current = [None] * n
+        written = [False] * n
+        rounds = max(len(c["values"]) for c in subs) + 1
+        for r in range(rounds):
+            plan_ = []
+            for i, c in enumerate(subs):
+                if r < len(c["values"]):
+                    plan_.append(("write", c["values"][r]))
+                elif written[i]:
+                    plan_.append(("read", None))
+                else:
+                    plan_.append(None)
+            active = [i for i in range(n) if plan_[i] is not None]
+            if not active:
+                continue
+            gate["barrier"] = threading.Barrier(len(active)) if len(active) > 1 else None
+            results = [None] * n
+
+            def work(i):
+                try:
+                    op, v = plan_[i]
+                    results[i] = ("ok", stores_[i].write(v) if op == "write" else stores_[i].read())
+                except BaseException as e:  # noqa: B902
+                    results[i] = ("err", e)
+
+            ts = [threading.Thread(target=work, args=(i,)) for i in active]
+            for t in ts:
+                t.start()
+            for t in ts:
+                t.join(30)
+            gate["barrier"] = None
+            tag = f"[round {r}: {[p[0] if p else None for p in plan_]} at the same time on {n} MountedStores] "
+            for i in active:
+                if results[i] is None:
+                    raise runner.Inconclusive("store operation did not finish within 30 s")
+                op, v = plan_[i]
+                if results[i][0] == "err":
+                    ctx.violation(case, tag + f"store {i} ({subs[i]['kind']}) {op} raised {results[i][1]!r}")
+                if op == "write":
+                    current[i], written[i] = v, True
+                else:
+                    why = deep_eq(current[i], results[i][1])
+                    if why:
+                        ctx.violation(case, tag + f"store {i} ({subs[i]['kind']}) read() != the value written to it: {why}; "
+                                                  f"wrote {current[i]!r:.200}, read {results[i][1]!r:.200}")
+            for i in range(n):  # afterwards, one at a time
+                if written[i]:
+                    try:
+                        got = stores_[i].read()
+                    except Exception as e:
+                        ctx.violation(case, tag + f"afterwards store {i} ({subs[i]['kind']}) read raised {e!r}")
+                    why = deep_eq(current[i], got)
+                    if why:
+                        ctx.violation(case, tag + f"afterwards store {i} ({subs[i]['kind']}) holds {got!r:.200}, the value "
+                                                  f"written to it was {current[i]!r:.200}: {why}")
+    finally:
+        shutil.rmtree(directory, ignore_errors=True)
+
+
 def make_store(case, directory):
     from uberjob import stores
     from uberjob._testing import TestMountedFileStore
@@ -347,6 +480,12 @@ def run_shard(ctx):
 
     runner.drive(ctx, test_tz, ctx.n(2400, 16000))
 
+    @given(overlap_cases())
+    def test_overlap(case):
+        runner.guarded(ctx, check_overlap_case, case)
+
+    runner.drive(ctx, test_overlap, ctx.n(1200, 12000))
+
 
 def replay(ctx, case):
     if case.get("fam") == "tz":
@@ -354,6 +493,14 @@ def replay(ctx, case):
             check_tz_case(ctx, case, record=False)
         except runner.Violation as v:
             return v.msg
+        return None
+    if case.get("fam") == "overlap":
+        case = dict(case, subs=[decode_case(c) for c in case["subs"]])
+        for _ in range(3):
+            try:
+                runner.guarded(ctx, check_overlap_case, case, record=False)
+            except runner.Violation as v:
+                return v.msg
         return None
     case = decode_case(case)
     try:
